@@ -80,14 +80,12 @@ inductive AssignRes where
   | panic (msg : String)
   deriving Repr
 
-/-- the assignment part of MeasureClockOffsetSCION (everything before the goroutines):
-    a pure function of the clients' state, the offered fingerprints and the random stream.
-    Also returns which clients were reset (ResetInterleavedMode + Filter.Reset): that happens
-    in the first loop, before any error is returned. -/
-def assign (f11fixed : Bool) (cs : List Client) (offered : List Fp) (cancelled : Bool) (s : Stream) :
+/-- the offered list with positions -/
+def offeredPaths (offered : List Fp) : List Path := (List.range offered.length).zip offered
+
+/-- second and third loop (Sample, errNoPath, fill) on the outcome `st` of the first loop -/
+def assignFrom (st : List (Option Path) × List Path) (cancelled : Bool) (s : Stream) :
     AssignRes × List Bool :=
-  let ps0 : List Path := (List.range offered.length).zip offered
-  let st := stickyLoop f11fixed cs ps0
   let reset := st.1.map Option.isNone
   let nsps := countSome st.1
   match sample ((st.1.length : Int) - nsps) st.2.length cancelled s with
@@ -96,6 +94,14 @@ def assign (f11fixed : Bool) (cs : List Client) (offered : List Fp) (cancelled :
   | .ok (n, picks, rest) =>
     if nsps + n = 0 then (.errNoPath rest, reset)
     else (.ok (fill st.1 ((applyPicks st.2 picks).take n)) rest, reset)
+
+/-- the assignment part of MeasureClockOffsetSCION (everything before the goroutines):
+    a pure function of the clients' state, the offered fingerprints and the random stream.
+    Also returns which clients were reset (ResetInterleavedMode + Filter.Reset): that happens
+    in the first loop, before any error is returned. -/
+def assign (f11fixed : Bool) (cs : List Client) (offered : List Fp) (cancelled : Bool) (s : Stream) :
+    AssignRes × List Bool :=
+  assignFrom (stickyLoop f11fixed cs (offeredPaths offered)) cancelled s
 
 /-! ### The round -/
 
